@@ -17,3 +17,5 @@ composed_stream_failures = _C02.t_failures_caught_page1
 composed_stream_failures.__module__ = __name__
 composed_stream_execution_record = _C16.final_result_limit
 composed_stream_execution_record.__module__ = __name__
+composed_stream_wrapped_suspenders = _C02.t_wrapped_suspenders_page1   # every synchronous START answered by a response that spans two pages
+composed_stream_wrapped_suspenders.__module__ = __name__
